@@ -53,7 +53,7 @@ struct C04 : Scenario {
     Json generate(Rng& rng, const std::string& tier, std::uint64_t) override {
         Json p = Json::object();
         p["scenario"] = "S-RUN";
-        GenOpts o; o.tuning_vfp = true; o.late_edits = true; o.max_steps = tier == "thorough" ? 9 : 7; o.max_actions = 3; o.max_udq = 1; o.restart_safe_conditions = false; o.reparent_groups = true; o.action_inline_safe = true; o.stop_safe = false; o.geo_kws = true;
+        GenOpts o; o.family_snippets = true; o.tuning_vfp = true; o.late_edits = true; o.max_steps = tier == "thorough" ? 9 : 7; o.max_actions = 3; o.max_udq = 1; o.restart_safe_conditions = false; o.reparent_groups = true; o.action_inline_safe = true; o.stop_safe = false; o.geo_kws = true;
         p["model_seed"] = static_cast<long long>(rng.next() >> 8); p["gen"] = o.to_json(); p["physics_seed"] = static_cast<long long>(rng.next() >> 16);
         Json ms = Json::array();
         for (int s = 0; s < o.max_steps; ++s) { Json f = Json::array(); int n = static_cast<int>(rng.range(1, 3)); for (int k = 1; k < n; ++k) f.push(static_cast<double>(k) / n); f.push(1.0); ms.push(f); }
